@@ -13,7 +13,7 @@ ID = 'C29'
 LEVEL = 'exploration'
 TECHNIQUE = 'property-based testing: generated documents x generated read-only calls; state-invariance oracle'
 RULE = ('case = document built by a formula-profile history (plus, optionally, a side-effect formula '
-        'Side.lookupOrAddDerived(K=$id % 3) feeding another table, and summary tables) + 1-6 calls to the seven '
+        'Side.lookupOrAddDerived(K=$id) feeding another table, and summary tables) + 1-6 calls to the seven '
         'read-only entry points (fetch_table with/without query, fetch_meta_tables, get_formula_error, '
         'evaluate_formula, get_formula_prompt, autocomplete, find_col_from_values) with generated valid and invalid '
         'arguments. Non-trivial = a call evaluated a formula (get_formula_error / evaluate_formula) on a cell with a '
@@ -51,19 +51,24 @@ def run_case(case):
   if case.get('side') and any(t['tableId'] == 'Alpha' for t in d.tables_meta()):
     extra.append([['AddTable', 'Side', [{'id': 'K', 'type': 'Int', 'isFormula': False}]]])
     extra.append([['AddColumn', 'Alpha', 'SideEff', {'type': 'Any', 'isFormula': True,
-                                                      'formula': 'Side.lookupOrAddDerived(K=$id % 3).id'}]])
+                                                      'formula': 'Side.lookupOrAddDerived(K=$id).id'}]])
   if case.get('summary'):
     for t in d.tables_meta():
       if not t['summarySourceTable']:
         cols = [c for c in d.columns(t['id']) if c['type'].split(':')[0] in O.GROUPABLE][:1]
         extra.append([['CreateViewSection', t['id'], 0, 'record', [c['id'] for c in cols], None]])
         break
+  extra_failed = False
   for uas in extra:
-    d.apply(uas)
-  c0 = d.calculate()
-  if not c0.ok:
-    out['skipped'] = True
-    return out
+    if not d.apply(uas).ok:
+      extra_failed = True
+  # No Calculate here on purpose: the calls must be harmless right after an ordinary bundle too (the engine keeps
+  # the previous bundle's action group around). Only a failed bundle is settled first (C04's known finding).
+  if extra_failed:
+    c0 = d.calculate()
+    if not c0.ok:
+      out['skipped'] = True
+      return out
   before = d.snapshot()
   eng = d.engine
   tabs = d.tables_meta()
@@ -78,7 +83,7 @@ def run_case(case):
     col = (fcols or cols or [{'colId': 'nope'}])[int(call['b']) % max(1, len(fcols or cols))]
     cid = col['colId'] if int(call['c']) % 10 != 8 else 'no_such_col'
     rows = d.row_ids(tid) if tid in eng.tables else []
-    rid = rows[int(call['c']) % len(rows)] if rows and int(call['c']) % 10 != 7 else 999
+    rid = rows[int(call['c']) % len(rows)] if rows and int(call['c']) % 10 not in (6, 7) else 900 + int(call['b'])
     desc = [fn, tid, cid, rid]
     try:
       if fn == 'fetch_table':
